@@ -31,6 +31,7 @@ mod out;
 mod rng;
 mod suite_classify;
 mod suite_fee;
+mod suite_height;
 mod suite_provider;
 mod suite_tlv;
 
@@ -64,6 +65,7 @@ fn main() {
         "fee" => suite_fee::run(ctx),
         "classify" => suite_classify::run(ctx),
         "provider" => suite_provider::run(ctx),
+        "height" => suite_height::run(ctx),
         other => { eprintln!("unknown suite {}", other); std::process::exit(2); }
     }
 }
